@@ -29,6 +29,28 @@ def main():
         os.environ['PYTHONDONTWRITEBYTECODE'] = '1'
         os.execv(sys.executable, [sys.executable, '-m', 'mc'] + sys.argv[1:])
 
+    # Hard watchdog: a check that does not finish is a broken check (exit 2),
+    # never a verdict.  Operations that can block are guarded individually in
+    # the checks so that a blocking implementation is reported as a violation.
+    import signal
+    default = 7200 if os.environ['VERIF_TIER'] == 'thorough' else 900
+    try:
+        limit = int(os.environ.get('VERIF_TIMEOUT', default))
+    except ValueError:
+        limit = default
+
+    def _timeout(signum, frame):
+        print(f'HARNESS-ERROR: property={args.prop.upper()} exceeded the '
+              f'{limit}s watchdog', flush=True)
+        try:
+            import multiprocessing
+            for child in multiprocessing.active_children():
+                child.kill()
+        finally:
+            os._exit(2)
+    signal.signal(signal.SIGALRM, _timeout)
+    signal.alarm(limit)
+
     prop = args.prop.upper()
     try:
         mod = importlib.import_module(f'mc.checks.{prop.lower()}')
